@@ -74,6 +74,8 @@ pub struct Spec {
     pub rule: String,
     pub assumptions: Vec<String>,
     pub extra: BTreeMap<String, Value>,
+    /// failures found by an extra, non-explorer part of the check: (signature, case description)
+    pub extra_failures: Vec<(String, String)>,
 }
 
 fn fnv(s: &str) -> u64 {
@@ -280,6 +282,27 @@ pub fn run_parts(parts: &[&dyn Harness], spec: Spec) -> i32 {
     }
     if !all_completed {
         bound_completed = None;
+    }
+    {
+        let mut by: BTreeMap<String, Vec<String>> = BTreeMap::new();
+        for (sig, msg) in &spec.extra_failures {
+            by.entry(sig.clone()).or_default().push(msg.clone());
+        }
+        for (sig, msgs) in by {
+            let dir = verif_dir().join("replays").join(spec.prop);
+            let _ = std::fs::create_dir_all(&dir);
+            let path = dir.join(format!("{}.json", sig.replace(['/', ' '], "_")));
+            let doc = json!({"property": spec.prop, "signature": sig, "cases": msgs.iter().take(20).collect::<Vec<_>>(), "count": msgs.len()});
+            let _ = std::fs::write(&path, serde_json::to_string_pretty(&doc).unwrap());
+            if let Some(k) = known.iter().find(|k| k.signature == sig) {
+                println!("KNOWN-FINDING: property={} {}", spec.prop, k.what);
+                known_seen.push(sig.clone());
+            } else {
+                println!("VIOLATION property={} replay={}", spec.prop, path.display());
+                eprintln!("  {sig}: {} ({} cases)", msgs[0], msgs.len());
+                violations.push((sig.clone(), path));
+            }
+        }
     }
     let mut cov = json!({
         "evaluations": tot.evaluations + tot.extra_execs,
